@@ -11,5 +11,6 @@ From Chess3 Require Export Spec.ChessJudge.
 From Chess3 Require Export Model.SeqStreams.
 From Chess3 Require Export Spec.SnapJudge.
 From Chess3 Require Export Model.TT Spec.TTSpec.
+From Chess3 Require Export Model.Hist Model.Picker Spec.PickerSpec.  (* C16 *)
 
 Extraction Language OCaml.
